@@ -26,14 +26,20 @@ type l2Prog struct {
 // l2Plan: corpus harnesses serving a property.
 func l2Plan(prop, tier string) []l2Prog {
 	var ps []l2Prog
-	srcOf := map[string]string{"f02": "f01", "f10": "f06", "f11": "f07", "f08n": "f04", "f01": "f01", "f03": "f02", "f04": "f02", "f05": "f02", "f06": "f05", "f07": "f05", "f08": "f04",
-		"p01": "f03", "p02": "f03", "p03": "f03", "p04": "f03", "p05": "f04", "p06": "f05", "p07": "f09", "p08": "f08", "p09": "f08"}
+	srcOf := map[string]string{"f02": "f01", "f10": "f06", "f11": "f07", "f08n": "f04", "f01": "f01", "fm1": "f01", "f03": "f02", "f04": "f02", "f05": "f02", "f06": "f05", "f07": "f05", "f08": "f04",
+		"p01": "f03", "p02": "f03", "p03": "f03", "p04": "f03", "p05": "f04", "p06": "f05", "p07": "f09", "p08": "f08", "p09": "f08",
+		"p10": "f10", "p11": "f10", "p12": "f10", "f12": "f11", "f13": "f11", "p13": "f11"}
+	srcOfEntry := map[string]string{"verifHarness_f10_fail": "f06"}
 	add := func(entry, name string, as, cs map[int]string) {
 		key := strings.TrimPrefix(entry, "verifHarness_")
 		if i := strings.Index(key, "_"); i > 0 {
 			key = key[:i]
 		}
-		ps = append(ps, l2Prog{src: srcOf[key], entry: entry, name: name, assert: as, cover: cs,
+		src := srcOf[key]
+		if s, ok := srcOfEntry[entry]; ok {
+			src = s
+		}
+		ps = append(ps, l2Prog{src: src, entry: entry, name: name, assert: as, cover: cs,
 			noSym: key == "p02" || key == "p03" || key == "p07" || key == "p04"})
 	}
 	f01ok := func() {
@@ -145,6 +151,46 @@ func l2Plan(prop, tier string) []l2Prog {
 		add("verifHarness_f02_fail", "Flow02 with every task allowed to fail or panic (early return with siblings in flight)",
 			map[int]string{}, map[int]string{1: "flow fails", 2: "flow succeeds"})
 	}
+	p10 := func() {
+		add("verifHarness_p10", "Par10: Map with context + MapEnd(func(ctx) error), 0..2 entries; the End hook may fail or panic",
+			map[int]string{1: "nil iff no entry panicked and the End hook neither failed nor panicked", 2: "map function once per entry", 3: "End hook exactly once", 4: "End hook after every entry call", 5: "End hook never after a failed entry"},
+			map[int]string{1: "two entries, End hook panics", 2: "empty map, End hook fails"})
+	}
+	p11 := func() {
+		add("verifHarness_p11", "Par11: Slice + SliceEnd(func(ctx) error), length 0..2; the End hook may fail or panic",
+			map[int]string{1: "nil iff no element panicked and the End hook neither failed nor panicked", 2: "element function once per element", 3: "End hook exactly once", 4: "End hook after every element call", 5: "End hook never after a failed element"},
+			map[int]string{1: "two elements, End hook panics", 2: "an element panics"})
+	}
+	p12 := func() {
+		add("verifHarness_p12", "Par12: Map + MapEnd(func()), 0..2 entries; the End hook may panic",
+			map[int]string{1: "nil iff no entry failed and the End hook did not panic", 2: "map function once per entry", 3: "End hook exactly once", 5: "End hook never after a failed entry"},
+			map[int]string{1: "two entries, End hook panics"})
+	}
+	f12 := func() {
+		add("verifHarness_f12", "Flow12: Params/Results arguments are bare identifiers / &identifiers named v1, v3, ctx (like generated variables)",
+			map[int]string{1: "flow returns nil", 2: "the caller's Results variable holds the provider's value", 3: "the task receives the caller's Params value", 4: "each task once"},
+			map[int]string{1: "non-zero result"})
+	}
+	f13 := func() {
+		add("verifHarness_f13", "Flow13: a function-literal task assigns to the enclosing function's variable named err",
+			map[int]string{1: "panic in the literal is reported", 2: "the write reaches the enclosing err; the flow itself returns nil", 3: "Results hold the literal's value", 4: "inner function called once"},
+			map[int]string{1: "inner function returned an error", 2: "inner function panicked"})
+	}
+	p13 := func() {
+		add("verifHarness_p13", "Par13: function literals (Task, Slice) in Parallel write to enclosing variables named err and n",
+			map[int]string{1: "the Task literal's write reaches the enclosing err; Parallel returns nil", 2: "every index delivered to the Slice literal exactly once", 3: "call counts"},
+			map[int]string{1: "error stored, two elements"})
+	}
+	f10fail := func() {
+		add("verifHarness_f10_fail", "Flow10 with a failing/panicking provider of the predicate-gated task (the predicate does not consume that provider's output)",
+			map[int]string{1: "flow fails when the provider fails", 2: "the gated task is never invoked after its provider failed", 3: "Results untouched", 4: "the error is the provider's error", 5: "nil when nothing failed", 6: "provider called once"},
+			map[int]string{1: "provider returned an error", 2: "provider panicked"})
+	}
+	fm1 := func() {
+		add("verifHarness_fm1", "FlowM1 (modifier-mode subset: Params, Results, Concurrency(2), plain Tasks incl. multi-output and error-less ones), every task may fail or panic",
+			map[int]string{1: "nil iff nothing failed", 2: "Results on success", 3: "every task once on success", 4: "parameters are the providers' values", 5: "Results untouched on failure", 6: "the error is the failing task's error", 7: "dependents of a failed task never run", 8: "Concurrency(2) reaches the scheduler"},
+			map[int]string{1: "everything succeeds", 2: "the multi-output task panics", 3: "the last task returns an error"})
+	}
 	switch prop {
 	case "C12":
 		f01fail()
@@ -156,13 +202,17 @@ func l2Plan(prop, tier string) []l2Prog {
 	case "C20":
 		f01ok()
 		f01fail()
-		f02ok()
+		fm1()
+		f02ok() // base and source-map only: Invoke is outside the modifier-mode subset
 	case "C03":
 		f02ok()
 	case "C15":
 		f06()
 		f07()
 		p06()
+		f12()
+		f13()
+		p13()
 	case "C18":
 		f08()
 		f08n()
@@ -171,6 +221,7 @@ func l2Plan(prop, tier string) []l2Prog {
 		f01ok()
 		f02ok()
 		f10()
+		f12()
 	case "C04":
 		f11()
 		f01fail()
@@ -180,9 +231,13 @@ func l2Plan(prop, tier string) []l2Prog {
 		p02()
 		p04()
 		p08()
+		p10()
+		p11()
+		p12()
 	case "C07":
 		f01fail()
 		p01()
+		f10fail()
 	case "C08":
 		p01()
 		p04()
@@ -193,6 +248,10 @@ func l2Plan(prop, tier string) []l2Prog {
 		p07()
 		p08()
 		p09()
+		p10()
+		p11()
+		p12()
+		p13()
 	case "C11":
 		f03()
 		f04()
@@ -229,9 +288,12 @@ func l2Specs(prop, tier string) ([]*eng.KernelSpec, corpora, error) {
 			return nil, cs, err
 		}
 		for _, sp := range s {
+			if md.mode == "modifier" && sp.Entry == "verifHarness_f02_ok" {
+				continue // Flow02 uses Invoke: outside the modifier-mode subset of C20
+			}
 			sp.Name = "[genmode=" + md.mode + "] " + sp.Name
+			all = append(all, sp)
 		}
-		all = append(all, s...)
 	}
 	return all, cs, nil
 }
